@@ -8,6 +8,8 @@ import (
 	"sort"
 
 	df "github.com/awslabs/ar-go-tools/analysis/dataflow"
+	"github.com/awslabs/ar-go-tools/analysis/taint"
+	"github.com/awslabs/ar-go-tools/internal/zzverif/drv"
 	"github.com/awslabs/ar-go-tools/internal/zzverif/gen"
 	"golang.org/x/tools/go/ssa"
 )
@@ -15,18 +17,19 @@ import (
 func init() { subcmds["summ"] = summCmd }
 
 type summRec struct {
-	Idx     int      `json:"idx"`
-	Sig     string   `json:"sig"`
-	Atoms   []string `json:"atoms"`
-	Funcs   int      `json:"funcs"`
-	Values  int      `json:"values"` // SSA values visited by the reference BFS
-	Edges   int      `json:"edges"`  // operand edges followed
-	Pairs   int      `json:"pairs"`
-	Long    int      `json:"long"` // pairs connected through >= 2 instructions
-	Missing []string `json:"missing"`
-	MAtoms  []string `json:"matoms"`
-	Panic   string   `json:"panic,omitempty"`
-	LoadErr string   `json:"load_err,omitempty"`
+	Idx          int      `json:"idx"`
+	Sig          string   `json:"sig"`
+	Atoms        []string `json:"atoms"`
+	Funcs        int      `json:"funcs"`
+	Values       int      `json:"values"` // SSA values visited by the reference BFS
+	Edges        int      `json:"edges"`  // operand edges followed
+	Pairs        int      `json:"pairs"`
+	Long         int      `json:"long"` // pairs connected through >= 2 instructions
+	Missing      []string `json:"missing"`
+	MAtoms       []string `json:"matoms"`
+	ClosurePairs int      `json:"closure_pairs"` // (predecessor instruction, instruction, value, mark) inclusions checked
+	Panic        string   `json:"panic,omitempty"`
+	LoadErr      string   `json:"load_err,omitempty"`
 }
 
 var transferBuiltins = map[string]bool{"append": true, "min": true, "max": true, "len": true, "real": true, "imag": true,
@@ -152,6 +155,33 @@ func summCmd(args []string) int {
 				rec.Funcs++
 				sm := st.FlowGraph.Summaries[f]
 				checkFunction(f, sm, &rec, matoms)
+				cv, cp, od := closureViolations(st, f, taint.IsNodeOfInterest)
+				rec.ClosurePairs += cp
+				if len(cv) > 0 {
+					rec.Missing = append(rec.Missing, cv...)
+					matoms[closureAtom(od)] = true
+				}
+			}
+			// the closure clause again under the field-sensitive configuration (marks carry access paths there)
+			if _, st2, err := freshStateCfg(s.Src, drv.Cfg{FieldSensitive: true}); err == nil {
+				for _, f := range fns {
+					var f2 *ssa.Function
+					for g, sm := range st2.FlowGraph.Summaries {
+						if sm != nil && g.String() == f.String() {
+							f2 = g
+						}
+					}
+					if f2 == nil {
+						continue
+					}
+					cv, cp, od := closureViolations(st2, f2, taint.IsNodeOfInterest)
+					rec.ClosurePairs += cp
+					if len(cv) > 0 {
+						rec.Missing = append(rec.Missing, cv...)
+						matoms[closureAtom(od)] = true
+						matoms["cfg:fs"] = true
+					}
+				}
 			}
 			for a := range matoms {
 				rec.MAtoms = append(rec.MAtoms, a)
@@ -370,6 +400,12 @@ func summStdCmd(args []string) int {
 			matoms := map[string]bool{}
 			rec.Funcs = 1
 			checkFunction(f, res.Summary, &rec, matoms)
+			cv, cp, od := closureViolations(st, f, stdShouldTrack)
+			rec.ClosurePairs += cp
+			if len(cv) > 0 {
+				rec.Missing = append(rec.Missing, cv...)
+				matoms[closureAtom(od)] = true
+			}
 			for a := range matoms {
 				rec.MAtoms = append(rec.MAtoms, a)
 			}
@@ -382,4 +418,104 @@ func summStdCmd(args []string) int {
 	}
 	fmt.Fprintf(os.Stderr, "DONE\n")
 	return 0
+}
+
+// closureViolations checks the second clause of C08 on the REAL final abstract state of f: the state is closed under
+// control-flow propagation, i.e. for every instruction i and every CFG predecessor instruction p of i (reference
+// predecessor relation computed here from the SSA blocks, independently of the implementation's own map), every
+// (access path, mark) attached to a value at p is attached to it at i. The analysis is re-run for f with a post-block
+// callback that hands out the analysis state; the check reads it after the fixpoint has been reached.
+func closureViolations(st *df.AnalyzerState, f *ssa.Function, track func(*df.AnalyzerState, ssa.Node) bool) (viol []string, pairs int, onlyDefer bool) {
+	onlyDefer = true
+	var final *df.IntraAnalysisState
+	_, err := df.IntraProceduralAnalysis(st, f, true, df.GetUniqueFunctionID(), track, func(s *df.IntraAnalysisState) { final = s })
+	if err != nil || final == nil {
+		return nil, 0, false
+	}
+	fi := final.FlowInfo()
+	ignored := func(i ssa.Instruction) bool { _, ok := i.(*ssa.DebugRef); return ok }
+	kept := func(b *ssa.BasicBlock) []ssa.Instruction {
+		var out []ssa.Instruction
+		for _, i := range b.Instrs {
+			if !ignored(i) {
+				out = append(out, i)
+			}
+		}
+		return out
+	}
+	// blocks reachable from the entry
+	reach := map[*ssa.BasicBlock]bool{}
+	var walk func(b *ssa.BasicBlock)
+	walk = func(b *ssa.BasicBlock) {
+		if reach[b] {
+			return
+		}
+		reach[b] = true
+		for _, s := range b.Succs {
+			walk(s)
+		}
+	}
+	if len(f.Blocks) > 0 {
+		walk(f.Blocks[0])
+	}
+	if f.Recover != nil {
+		walk(f.Recover)
+	}
+	n := fi.NumValues
+	sub := func(p, i ssa.Instruction) {
+		pp, ok1 := fi.InstrID[p]
+		ii, ok2 := fi.InstrID[i]
+		if !ok1 || !ok2 {
+			return
+		}
+		for v := df.IndexT(0); v < n; v++ {
+			a := fi.MarkedValues[pp*n+v]
+			if a == nil {
+				continue
+			}
+			b := fi.MarkedValues[ii*n+v]
+			for _, m := range a.AllMarks() {
+				pairs++
+				if b == nil || !b.HasMarkAt(m.AccessPath, m.Mark) {
+					if _, isDefer := m.Mark.Node.(*ssa.Defer); !isDefer {
+						onlyDefer = false
+					}
+					if len(viol) < 4 {
+						viol = append(viol, fmt.Sprintf("%s: mark %s (path %q) on value #%d is attached after [%s] but not after its successor [%s]",
+							f.String(), m.Mark.String(), m.AccessPath, v, p.String(), i.String()))
+					}
+				}
+			}
+		}
+	}
+	for _, b := range f.Blocks {
+		if !reach[b] {
+			continue
+		}
+		ins := kept(b)
+		for k, i := range ins {
+			if k > 0 {
+				sub(ins[k-1], i)
+				continue
+			}
+			for _, pb := range b.Preds {
+				if !reach[pb] {
+					continue
+				}
+				if pi := kept(pb); len(pi) > 0 {
+					sub(pi[len(pi)-1], i)
+				}
+			}
+		}
+	}
+	return viol, pairs, onlyDefer
+}
+
+// closureAtom names a closure-clause failure: marks of deferred calls (attached at the Defer instruction by the
+// RunDefers simulation, i.e. after the instructions following the defer were processed) are told apart from all others.
+func closureAtom(onlyDeferMarks bool) string {
+	if onlyDeferMarks {
+		return "clause:state-not-closed-defer-marks-only"
+	}
+	return "clause:state-not-closed"
 }
